@@ -133,7 +133,7 @@ PAIRS_PROGS = [
      'vec![9, 9, 9]'),
     ('sync-family-agrees-on-a-deep-stack-branch', 'Vec<i64>',
      _pair(['join', 'join_spawn', 'spawn'],
-           'Some(1_i64) |> |x| { let a = [1u8; 600_000]; let mut s = 0_i64; for i in (0..a.len()).step_by(4096) { s += a[i] as i64; } x + s }, Some(2_i64) |> |x| x + 1', 'i64',
+           'Some(1_i64) |> |x| { let a = std::hint::black_box([1u8; 600_000]); let mut s = 0_i64; for i in (0..a.len()).step_by(4096) { s += a[i] as i64; } x + s }, Some(2_i64) |> |x| x + 1', 'i64',
            lambda m, b: 'let r = %s! { %s }; r.0.unwrap() * 10 + r.1.unwrap()' % (m, b)),
      'vec![1483, 1483, 1483]'),
 ]
